@@ -99,8 +99,20 @@ func errRes(err error) string {
 }
 
 // runV executes one verifier entry point on its (string-encoded) arguments.
+// entry points that timed out once: their spinning goroutine cannot be killed, so they are not called again in this run
+var hung = map[string]bool{}
+
 func runV(f string, a map[string]string) vRec {
 	rec := vRec{K: "v", F: f, A: a}
+	if hung[f] {
+		rec.St, rec.Res = 4, "skipped-after-timeout"
+		return rec
+	}
+	defer func() {
+		if rec.St == 3 {
+			hung[f] = true
+		}
+	}()
 	st, msg := cx.Guard(func() {
 		switch f {
 		case "NewBlock":
@@ -332,6 +344,27 @@ func genVerifierCases(o *hx.Out, rng *hx.Rng, n int) {
 			goodBits, sig = crypto.BLSCreateAggSig(keys, pairs)
 		}
 		right := (nk + 7) / 8
+		// right-length bitmaps with padding bits set (key counts that are not a multiple of 8): all ones, each single padding
+		// bit, each single padding bit on top of the genuine bitmap
+		if nk%8 != 0 {
+			pads := [][]byte{bytes.Repeat([]byte{0xff}, right)}
+			for bit := nk; bit < right*8; bit++ {
+				one := make([]byte, right)
+				one[bit/8] |= 1 << uint(bit%8)
+				pads = append(pads, one)
+				both := append([]byte{}, goodBits...)
+				both[bit/8] |= 1 << uint(bit%8)
+				pads = append(pads, both)
+			}
+			for _, bits := range pads {
+				a := map[string]string{"keys": hexList(keys), "bits": hx2(bits), "sig": hx2(sig), "weights": u64List(weights), "threshold": "1", "msg": hx2(msg)}
+				put("BLSVerifyWeightedAggSig", a)
+				put("BLSVerifyAggSig", a)
+				c := &certificate.Certificate{BlockID: bytes.Repeat([]byte{1}, 32), Height: 5, StateRoot: bytes.Repeat([]byte{2}, 32),
+					ValidatorsHash: bytes.Repeat([]byte{3}, 32), AggregationBits: bits, Signature: sig}
+				put("CertVerifyAggregate", map[string]string{"d": hx2(c.Encode()), "keys": hexList(keys), "weights": u64List(weights), "threshold": "1", "chain": "00000000"})
+			}
+		}
 		for bl := 0; bl <= right+2; bl++ {
 			for _, fill := range []byte{0xff, 0x00, 0x01} {
 				bits := bytes.Repeat([]byte{fill}, bl)
@@ -420,7 +453,25 @@ func genVerifierCases(o *hx.Out, rng *hx.Rng, n int) {
 		put("smt.Verify", map[string]string{"keys": hx2(k), "proof": hx2(p.Encode()), "root": hx2(h32(1)), "keylen": "2"})
 	}
 
-	// ---- RMT proofs
+	// ---- RMT proofs: extreme sizes first (a size-dependent loop that does not terminate shows up as TIMEOUT)
+	for _, size := range []uint64{1 << 62, 1<<63 - 1, 1 << 63, 1<<63 + 1, 1<<64 - 1} {
+		for _, nq := range []int{0, 1} {
+			for _, ns := range []int{0, 1} {
+				p := &rmt.Proof{Size: size}
+				hashes := [][]byte{}
+				for q := 0; q < nq; q++ {
+					hashes = append(hashes, h32(byte(q+1)))
+					p.Idxs = append(p.Idxs, size) // the first leaf index of a tree of that size
+				}
+				for q := 0; q < ns; q++ {
+					p.SiblingHashes = append(p.SiblingHashes, h32(0x55))
+				}
+				a := map[string]string{"hashes": hexList(hashes), "proof": hx2(p.Encode()), "root": hx2(h32(9))}
+				put("rmt.VerifyProof", a)
+				put("rmt.CalculateRootFromUpdateData", a)
+			}
+		}
+	}
 	for i := 0; i < n*40; i++ {
 		size := []uint64{0, 1, 2, 3, 4, 5, 8, 9, 257, 1 << 20, 1<<63 - 1, 1 << 63, 1<<64 - 1}[rng.Intn(13)]
 		p := &rmt.Proof{Size: size}
